@@ -734,6 +734,7 @@ package zerolog
 //@   flag guarded mu buf triggered
 //@   requires w != nil && !held(w.mu)
 //@   ensures !held(w.mu) && w.buf == nil && err == nil && ncalls(LevelWriter.WriteLevel) == old(ncalls(LevelWriter.WriteLevel)) && ncalls(io.Writer.Write) == old(ncalls(io.Writer.Write))
+//@   ensures w.triggered == old(w.triggered) && w.Writer == old(w.Writer) && w.TriggerLevel == old(w.TriggerLevel) && w.ConditionalLevel == old(w.ConditionalLevel)
 
 // ---------------------------------------------------------------------------
 // C07: effect contract `allocates nothing` on the documented fast paths. The
@@ -806,8 +807,30 @@ package zerolog
 
 //@ func (Context).Caller(c) res
 //@   flag frontend
-//@   ensures [C03] len(res.l.hooks) == len(c.l.hooks) + 1 && (forall k in 0..len(c.l.hooks): res.l.hooks[k] == c.l.hooks[k]) && typeis(res.l.hooks[len(c.l.hooks)], "callerHook")
+//@   flag replay caller_frames
+//@   ensures [C03,C19] len(res.l.hooks) == len(c.l.hooks) + 1 && (forall k in 0..len(c.l.hooks): res.l.hooks[k] == c.l.hooks[k]) && typeis(res.l.hooks[len(c.l.hooks)], "callerHook")
+//@   ensures [C19] dyn(res.l.hooks[len(c.l.hooks)], "callerHook").callerSkipFrameCount == useGlobalSkipFrameCount
 
 //@ func (Context).CallerWithSkipFrameCount(c, skipFrameCount) res
 //@   flag frontend
-//@   ensures [C03] len(res.l.hooks) == len(c.l.hooks) + 1 && (forall k in 0..len(c.l.hooks): res.l.hooks[k] == c.l.hooks[k]) && typeis(res.l.hooks[len(c.l.hooks)], "callerHook")
+//@   flag replay caller_frames
+//@   ensures [C03,C19] len(res.l.hooks) == len(c.l.hooks) + 1 && (forall k in 0..len(c.l.hooks): res.l.hooks[k] == c.l.hooks[k]) && typeis(res.l.hooks[len(c.l.hooks)], "callerHook")
+//@   ensures [C19] dyn(res.l.hooks[len(c.l.hooks)], "callerHook").callerSkipFrameCount == skipFrameCount
+
+// C11 (Fatal path): the exit callback closes the destination -- synchronously,
+// in this goroutine -- before it terminates the process, so a diode behind the
+// logger has delivered or reported everything when os.Exit runs.
+//@ track Closer.Close, os.Exit
+//@ func (*Logger).Fatal$1(msg)
+//@   props C11
+//@   arith int
+//@   requires l != nil && deref(l) != nil
+//@   ensures ncalls(os.Exit) == old(ncalls(os.Exit)) + 1
+//@   ensures implements(deref(l).w, "io.Closer") ==> ncalls(Closer.Close) == old(ncalls(Closer.Close)) + 1 && callseq(Closer.Close, old(ncalls(Closer.Close))) < callseq(os.Exit, old(ncalls(os.Exit)))
+
+//@ func newCallerHook(skipFrameCount) res
+//@   props C19
+//@   arith int
+//@   ensures res.callerSkipFrameCount == skipFrameCount
+
+//@ global [C19] ch.callerSkipFrameCount == useGlobalSkipFrameCount
